@@ -17,5 +17,6 @@ RELATED = {
     'C04': {'C01': ('D3.',)},
     'C16': {'C04': ('D1.',)},
     'C18': {'C08': ('D2.', 'D3.')},
-    'C19': {'C04': ('D1.', 'D3.')},
+    'C19': {'C04': ('D1.', 'D2.', 'D3.')},
+    'C15': {'C02': ('D5.', 'D6.')},
 }
